@@ -19,7 +19,7 @@ META = {
     "API, object captured from a rendering template} x the operation table (str/format, truth, iteration sync+async, "
     "containment, len, ==/!=, hash, + - * / // % **, < <= > >=, unary, int/float/complex, attribute/item/chained access, "
     "call, defined/undefined tests, default filter, copy, deepcopy, pickle with protocols >= 2, __html__) x other operand in "
-    "{1, 1.5, 's', [1], None, another undefined} x both orders is executed and compared with the table: a documented "
+    "{1, 1.5, 's', [1], None, another undefined; thorough also True, 2**70, (1,), {'a': 1}, b's'} x both orders is executed and compared with the table: a documented "
     "value, or jinja2.UndefinedError (exactly that class) whose message names the missing variable/attribute/hint.  The "
     "template-expressible cells are also rendered from template source in a sync and an async-enabled environment.  "
     "Logging variants must additionally emit a log record naming the variable for printing and iteration.",
@@ -42,7 +42,12 @@ ARITH = {"add": "+", "sub": "-", "mul": "*", "truediv": "/", "floordiv": "//", "
 CMP = {"lt": "<", "le": "<=", "gt": ">", "ge": ">="}
 EQ = {"eq": "==", "ne": "!="}
 WKINDS = ["int", "float", "str", "list", "none", "undef"]
-W_SRC = {"int": "1", "float": "1.5", "str": "'s'", "list": "[1]", "none": "none", "undef": "y"}
+WKINDS_THOROUGH = WKINDS + ["bool", "bigint", "tuple", "dict", "bytes"]  # the last five reach templates as variables
+W_SRC = {"int": "1", "float": "1.5", "str": "'s'", "list": "[1]", "none": "none", "undef": "y",
+         "bool": "true", "bigint": "w_bigint", "tuple": "(1,)", "dict": "{'a': 1}", "bytes": "w_bytes"}
+W_VALUES = {"int": 1, "float": 1.5, "str": "s", "list": [1], "none": None, "bool": True, "bigint": 2**70,
+            "tuple": (1,), "dict": {"a": 1}, "bytes": b"s"}
+_SCALARS = ("int", "float", "none", "bool", "bigint")
 NULLARY = (["str", "format", "bool", "not", "iter", "aiter", "len", "hash", "neg", "pos", "int", "float", "complex",
             "getattr", "getitem_str", "getitem_int", "chain", "call0", "call_args", "is_defined", "is_undefined",
             "default", "default_bool", "copy", "deepcopy", "html"]
@@ -138,8 +143,8 @@ def ref(base, origin, op, order=None, wk=None):
     # binary
     left_is_u = order == "uw"
     if op in ARITH or op in CMP:
-        if op == "mod" and not left_is_u and wk == "str":
-            return ("excluded", "'s' % u: str.__mod__ accepts any object with __getitem__ as a mapping and returns 's'")
+        if op == "mod" and not left_is_u and wk in ("str", "bytes"):
+            return ("excluded", "'s' % u: str/bytes.__mod__ accept any object with __getitem__ as a mapping and return 's'")
         if wk == "undef":
             return ("err", "u" if left_is_u else "w")  # the left operand's method runs first (same type)
         return ("err", "u")
@@ -150,12 +155,13 @@ def ref(base, origin, op, order=None, wk=None):
         return ("val", same if op == "eq" else not same)
     if op == "contains":
         if left_is_u:  # u in w
-            if wk in ("int", "float", "none"):
+            if wk in _SCALARS:
                 return ("excluded", "u in <non-container>: TypeError from the right operand")
-            if wk == "str":
-                return ("excluded", "u in 's': str.__contains__ insists on a str left operand (TypeError)")
-            if wk == "list":
-                return ("err", "u") if strict else ("val", False)  # list compares u == 1
+            if wk in ("str", "bytes"):
+                return ("excluded", "u in 's': str/bytes.__contains__ insist on their own operand types (TypeError)")
+            if wk in ("list", "tuple", "dict"):
+                # list/tuple compare u == 1, dict hashes u: both are refused by the strict type
+                return ("err", "u") if strict else ("val", False)
             return ("err", "w") if strict else ("val", False)  # u in y: y is the container
         return ("err", "u") if strict else ("val", False)  # CALIBRATED: nothing is contained in a non-strict undefined
     raise AssertionError((op, order, wk))
@@ -180,7 +186,7 @@ def make_env(base, logging_flag, is_async=False):
 
 
 def context_for(env):
-    return {"o": Obj(), "d": {"a": 1}, "l": [1], "h": env.undefined(hint=HINT)}
+    return {"o": Obj(), "d": {"a": 1}, "l": [1], "h": env.undefined(hint=HINT), "w_bigint": 2**70, "w_bytes": b"s"}
 
 
 V_SRC = {"name": "x", "attr": "o.missing", "item": "d['missing']", "index": "l[7]", "hint": "h"}
@@ -206,7 +212,7 @@ def obtain(env, origin, how):
 def other_operand(env, wk):
     if wk == "undef":
         return env.undefined(name="y")
-    return {"int": 1, "float": 1.5, "str": "s", "list": [1], "none": None}[wk]
+    return copy.copy(W_VALUES[wk])
 
 
 # ----------------------------------------------------------------------------- executing one cell directly
@@ -387,18 +393,18 @@ SCRIPT_DIRECT = (
 )
 
 
-def direct_cells():
+def direct_cells(wkinds=WKINDS):
     for op in NULLARY:
         yield (op, None, None)
     for op in list(ARITH) + list(CMP) + list(EQ) + ["contains"]:
         for order in ("uw", "wu"):
-            for wk in WKINDS:
+            for wk in wkinds:
                 yield (op, order, wk)
 
 
 # ----------------------------------------------------------------------------- template route
 
-def template_cells():
+def template_cells(wkinds=WKINDS):
     """(op, order, wk, source-format with V and W placeholders, how a reference value is printed)"""
     t = [
         ("str", "{{ V }}"),
@@ -424,10 +430,10 @@ def template_cells():
         yield (op, None, None, src)
     for table in (ARITH, CMP, EQ):
         for op, sym in table.items():
-            for wk in WKINDS:
+            for wk in wkinds:
                 yield (op, "uw", wk, "{{ V %s W }}" % sym)
                 yield (op, "wu", wk, "{{ W %s V }}" % sym)
-    for wk in WKINDS:
+    for wk in wkinds:
         yield ("contains", "uw", wk, "{{ V in W }}")
         yield ("contains", "wu", wk, "{{ W in V }}")
 
@@ -494,13 +500,13 @@ _SIG_OP = {"aiter": "async-iteration"}
 
 
 def shard(arg):
-    ti, origin = arg
+    ti, origin, wkinds = arg
     base, logging_flag = TYPES[ti]
     tn = tname(base, logging_flag)
     p = core.Part()
     # ---- direct route
     for how in ("api", "template-captured"):
-        for op, order, wk in direct_cells():
+        for op, order, wk in direct_cells(wkinds):
             env, handler = make_env(base, logging_flag)  # fresh environment (and class, for logging) per cell
             u = obtain(env, origin, how)
             if type(u) is not env.undefined:
@@ -520,6 +526,10 @@ def shard(arg):
                 continue
             okind = out[0] if out[0] != "exc" else out[1].__name__
             p.sig((tn, op, order, wk == "undef", okind))
+            if how == "api" and (op == "str" or (op, order, wk) == ("floordiv", "wu", "float")):
+                shown = repr(out[1]) if out[0] == "val" else f"{out[1].__name__}: {out[2]}" if out[0] == "exc" else out[0]
+                p.sample({"type": tn, "origin": origin, "op": op if order is None else f"1.5 // {V_SRC[origin]}",
+                          "outcome": shown, "expected": [str(x) for x in spec]}, cap=2)
             why = judge(spec, out, origin, u, twin)
             if why is None and handler is not None and op in ("str", "iter"):
                 # documented: the logging variant "will log iterations and printing"
@@ -534,7 +544,7 @@ def shard(arg):
                     "route": "direct", "script": SCRIPT_DIRECT % ((base, logging_flag, origin, how, op, order, wk),)})
     # ---- template route, sync and async
     for is_async in (False, True):
-        for op, order, wk, fmt in template_cells():
+        for op, order, wk, fmt in template_cells(wkinds):
             spec = ref(base, origin, op, order, wk)
             p.evals += 1
             env, handler = make_env(base, logging_flag, is_async)
@@ -554,9 +564,6 @@ def shard(arg):
                     "msg": f"template {'async' if is_async else 'sync'} {tn} origin={origin} {src!r}: {why}",
                     "route": "template-async" if is_async else "template",
                     "script": SCRIPT_TMPL % ((base, logging_flag, origin, src, is_async),)})
-    p.sample({"type": tn, "origin": origin, "cells": p.evals,
-              "example": {"source": "{{ 1 + " + V_SRC[origin] + " }}", "expected": list(ref(base, origin, "add", "wu", "int"))}},
-             cap=1)
     return p
 
 
@@ -585,7 +592,8 @@ def run(ctx: core.Ctx):
         "logging variants: only printing and iteration are required to log (documented); other log traffic is not compared",
         "int/float filters are not used (their own contract is C23); int()/float()/complex() are exercised directly",
     ]
-    ctx.pmap(shard, [(ti, origin) for ti in range(len(TYPES)) for origin in ORIGINS])
+    wkinds = WKINDS if ctx.quick else WKINDS_THOROUGH
+    ctx.pmap(shard, [(ti, origin, wkinds) for ti in range(len(TYPES)) for origin in ORIGINS])
     # one defect, one signature: a deviation that shows on a base type and on its logging variant keeps the base
     # signature; one that shows on all four base types is filed under "all-types"
     sigs = {s for s, _ in ctx.viol}
@@ -603,7 +611,7 @@ def run(ctx: core.Ctx):
         final.append((s, d))
     final.sort(key=lambda sd: (len(sd[1].get("msg", "")), sd[1].get("msg", "")))
     ctx.viol[:] = final
-    ctx.cov["bounds"] = {"types": [tname(*t) for t in TYPES], "origins": ORIGINS, "other_operands": WKINDS,
-                         "direct_cells_per_object": len(list(direct_cells())),
-                         "template_cells_per_environment": len(list(template_cells())),
+    ctx.cov["bounds"] = {"types": [tname(*t) for t in TYPES], "origins": ORIGINS, "other_operands": wkinds,
+                         "direct_cells_per_object": len(list(direct_cells(wkinds))),
+                         "template_cells_per_environment": len(list(template_cells(wkinds))),
                          "pickle_protocols": PICKLE_PROTOCOLS}
